@@ -248,3 +248,38 @@ def run(ctx):
         "for inexact (double) shapes only soundness-type obligations are judged (sup, token, limited, certificate)",
         "affine dimension (Gaussian rank) oracles of K1/K2 are executable but not proved",
     ]
+
+
+def replay(ctx, path):
+    """Re-run the recorded history against the current tree and re-judge it (exit 1 iff it still fails)."""
+    r = json.load(open(path))
+    print("property=%s what=%s" % (r.get("property"), r.get("what")))
+    seed, hid = r.get("seed", ctx.seed), r.get("history")
+    if hid is None:
+        print(json.dumps(r, indent=1)[:4000])
+        return 0
+    ctx.ensure_ppl()
+    drv = ctx.ensure_pplv("pplv_widen")
+    h = ctx.compile_harness("c08_widen.cc")
+    wd = ctx.workdir()
+    jpath = os.path.join(wd, "journal.txt")
+    ctx.run([h, "--seed", str(seed), "--first", str(hid), "--last", str(hid + 1), "--batch", "1"], stdout_path=jpath, timeout=600)
+    journal = open(jpath).read().splitlines()
+    verd, _ = run_driver(ctx, drv, journal, wd)
+    bad = 0
+    for g in sorted(verd):
+        for kind, obl, detail in verd[g]:
+            if kind == "MISMATCH":
+                site, tags, dom, op, hdr, lines = classify(journal, g, obl, detail)
+                print("MISMATCH line %d %s tags=%s: %s" % (g, site, ",".join(tags), detail[:300]))
+                for l in lines[:14]:
+                    print("   " + l[:240])
+                if ctx.match_known({"site": site, "tags": tags}) is None:
+                    bad += 1
+                else:
+                    print("   (matches an open known finding)")
+    print("history %s at seed %s: %d chain steps re-run, %d unexplained mismatches" % (hid, seed, sum(1 for l in journal if l.startswith("step ")), bad))
+    if bad:
+        print("VIOLATION property=%s replay=%s" % (ctx.pid, path))
+        return 1
+    return 0
